@@ -1,8 +1,34 @@
-import Sourmash.Lemmas.Gather
+import Sourmash.Lemmas.GatherRun
 /-! Property C08 — gather returns the greedy minimum set cover with consistent statistics.
-Property theorems only; helper lemmas live in `Sourmash/Lemmas/Gather*.lean`. -/
+Property theorems only; helper lemmas live in `Sourmash/Lemmas/Gather*.lean`.
+
+Vocabulary (`Sourmash/Model/Gather.lean`, `Sourmash/Lemmas/GatherInv.lean`):
+`trace c` = the rounds of `prepare_gather_counters` + `gather`, each as (state the round started from,
+reported row); `gather c` = the rows; `stopState c` = the state the loop stops in;
+`ov c d rem` = `|D_d ∩ rem|` computed from scratch; `minus c ds` = the query without the hashes of the
+datasets `ds`; `Sketches c` = every dataset and the query are strictly increasing hash lists.
+A position of the run is written `trace c = pre ++ p :: post`. -/
 namespace Sourmash.C08
 open Gather
+
+/-- a collection with a tie (datasets 0 and 1), a nested dataset (2 ⊆ 0), a duplicate (3 = 1) and a
+    dataset disjoint from the query (4); used by the non-vacuity examples -/
+def exCfg : Cfg :=
+  { dsets := [[1, 2, 3], [3, 4, 5], [2, 3], [3, 4, 5], [9]], scaled := 2, threshold := 0, track := true,
+    orig := [(1, 1), (2, 7), (3, 1), (4, 2), (5, 1), (6, 3)] }
+
+theorem exCfg_sketches : Sketches exCfg := by
+  constructor
+  · intro D hD
+    simp only [exCfg, List.mem_cons, List.mem_nil_iff, or_false] at hD
+    rcases hD with rfl | rfl | rfl | rfl | rfl <;> decide
+  · decide
+
+/-- the example gathers datasets 0 (tie with 1 broken to the lowest id), then 1 -/
+theorem exCfg_rows : (gather exCfg).map (fun r => (r.d, r.size, r.isect)) = [(0, 3, [1, 2, 3]), (1, 2, [4, 5])] := by
+  decide
+
+/-! ## T-threshold -/
 
 /-- T-threshold (one round): a reported match has a counter value that meets the threshold and is
     positive, and the round only started because the previous match size exceeded the threshold. -/
@@ -13,8 +39,176 @@ theorem reported_meets_threshold {c : Cfg} {s s' : St} {row : Row}
   subst hrow
   exact ⟨h4, Nat.pos_of_ne_zero h5, h1⟩
 
-example : ∃ c s s' row, step c s = some (row, s') :=
-  ⟨{ dsets := [[1, 2]], scaled := 1, threshold := 0, track := false, orig := [(1, 1)] },
-   init { dsets := [[1, 2]], scaled := 1, threshold := 0, track := false, orig := [(1, 1)] }, _, _, rfl⟩
+example : ∃ s s' row, step exCfg s = some (row, s') := ⟨init exCfg, _, _, rfl⟩
+
+/-- T-threshold: every reported overlap meets the threshold (and is positive) -/
+theorem overlaps_meet_threshold {c : Cfg} (hc : Sketches c) {p : St × Row} (hp : p ∈ trace c) :
+    p.2.size ≥ c.threshold ∧ p.2.size > 0 := by
+  obtain ⟨_, s', hstep⟩ := run_inv hc.wf _ (inv_init hc.wf) p hp
+  have := reported_meets_threshold hstep
+  exact ⟨this.1, this.2.1⟩
+
+example : ∃ p, p ∈ trace exCfg := ⟨_, List.mem_of_getElem? (i := 0) rfl⟩
+
+/-- T-threshold: the sequence of reported overlaps is non-increasing -/
+theorem overlaps_nonincreasing {c : Cfg} (hc : Sketches c) {pre post : List (St × Row)} {p : St × Row}
+    (ht : trace c = pre ++ p :: post) : ∀ p' ∈ post, p'.2.size ≤ p.2.size := by
+  obtain ⟨⟨f', hrun⟩, _, _⟩ := run_split hc.wf ht (inv_init hc.wf)
+  obtain ⟨_, f'', s2, _, hstep, hpost⟩ := run_cons hrun
+  rw [hpost]
+  exact run_sizes_le _ _ (step_counter_le hstep)
+
+/-- T-threshold: a match with overlap exactly the threshold is the last one -/
+theorem match_at_threshold_is_last {c : Cfg} (hc : Sketches c) {pre post : List (St × Row)} {p : St × Row}
+    (ht : trace c = pre ++ p :: post) (heq : p.2.size = c.threshold) : post = [] := by
+  obtain ⟨⟨f', hrun⟩, _, _⟩ := run_split hc.wf ht (inv_init hc.wf)
+  obtain ⟨_, f'', s2, _, hstep, hpost⟩ := run_cons hrun
+  rw [hpost]
+  exact step_at_threshold_last hstep heq _
+
+example : ∃ pre p post, trace exCfg = pre ++ p :: post ∧ post ≠ [] :=
+  ⟨[], _, _, rfl, by decide⟩
+example : ∃ pre p post, trace { exCfg with threshold := 3 } = pre ++ p :: post ∧ p.2.size = 3 :=
+  ⟨[], _, _, rfl, by decide⟩
+
+/-- T-threshold (stop rule): with the model's fuel the loop has really stopped (no further round is
+    possible), and it stops only when the last reported overlap is exactly the threshold (or the
+    threshold is `usize::MAX`), or when no unreported dataset has a positive overlap that meets the
+    threshold. -/
+theorem stop_rule {c : Cfg} (hc : Sketches c) :
+    step c (stopState c) = none ∧
+    (((gather c).map (·.size)).getLast? = some c.threshold ∨ 2 ^ 64 - 1 ≤ c.threshold ∨
+      ∀ d, d ∉ (gather c).map (·.d) → ov c d (stopState c).remaining < c.threshold ∨ ov c d (stopState c).remaining = 0) := by
+  unfold stopState
+  have hstop := final_stopped c
+  have hi : Inv c (final c (fuel c) (init c)) := final_inv hc.wf _ (inv_init hc.wf)
+  have hfr := final_reported (c := c) (fuel c) (init c)
+  have hrep : (final c (fuel c) (init c)).reported = (gather c).map (·.d) := by
+    rw [hfr.1]; simp [init, gather, trace, List.map_map, Function.comp_def]
+  have hsz : (final c (fuel c) (init c)).matchSize = (((gather c).map (·.size)).getLast?).getD (2 ^ 64 - 1) := by
+    rw [hfr.2]; simp [init, gather, trace, List.map_map, Function.comp_def]
+  refine ⟨hstop, ?_⟩
+  rcases stopped hi hstop with h1 | h1
+  · rw [hsz] at h1
+    cases hl : ((gather c).map (·.size)).getLast? with
+    | none => rw [hl] at h1; exact Or.inr (Or.inl h1)
+    | some x =>
+      rw [hl] at h1
+      left
+      -- the last reported size meets the threshold
+      have hmem : x ∈ (gather c).map (·.size) := List.mem_of_getLast? hl
+      obtain ⟨r, hr, rfl⟩ := List.mem_map.mp hmem
+      obtain ⟨p, hp, rfl⟩ := List.mem_map.mp hr
+      have := (overlaps_meet_threshold hc hp).1
+      simp only [Option.getD_some] at h1
+      congr 1
+      omega
+  · rw [hrep] at h1
+    exact Or.inr (Or.inr h1)
+
+/-- T-threshold (stop rule, as the property words it): when the loop stops, no unreported dataset's
+    overlap with the remaining query exceeds the threshold (query sizes fit a `usize`) -/
+theorem stop_nothing_exceeds {c : Cfg} (hc : Sketches c) (hq : c.orig.length < 2 ^ 64) :
+    ∀ d, d ∉ (gather c).map (·.d) → ov c d (stopState c).remaining ≤ c.threshold := by
+  intro d hd
+  have hstop := stop_rule hc
+  unfold stopState at hstop ⊢
+  have hi : Inv c (final c (fuel c) (init c)) := final_inv hc.wf _ (inv_init hc.wf)
+  have hfr := final_reported (c := c) (fuel c) (init c)
+  have hrep : (final c (fuel c) (init c)).reported = (gather c).map (·.d) := by
+    rw [hfr.1]; simp [init, gather, trace, List.map_map, Function.comp_def]
+  have hle : ov c d (final c (fuel c) (init c)).remaining ≤ c.orig.length := by
+    have h1 : ov c d (final c (fuel c) (init c)).remaining = (isectL (keys (final c (fuel c) (init c)).remaining) (dsOf c.dsets d)).length := by
+      unfold ov
+      exact isectL_length_comm (dsOf_nodup hc.wf d) (by rw [hi.rem]; exact keys_minus_nodup hc.wf _)
+    have h2 : (isectL (keys (final c (fuel c) (init c)).remaining) (dsOf c.dsets d)).length ≤ (keys (final c (fuel c) (init c)).remaining).length :=
+      List.length_filter_le _ _
+    have h3 : (keys (final c (fuel c) (init c)).remaining).length ≤ c.orig.length := by
+      rw [hi.rem]; simp only [keys, List.length_map, minus]; exact List.length_filter_le _ _
+    omega
+  rcases hstop with ⟨_, h1 | h1 | h1⟩
+  · -- last match exactly at the threshold: every counter is bounded by it
+    have hne : (final c (fuel c) (init c)).reported ≠ [] := by
+      rw [hrep]; intro h; rw [List.map_eq_nil_iff] at h; simp [h] at h1
+    have hsz : (final c (fuel c) (init c)).matchSize = c.threshold := by
+      rw [hfr.2]
+      have : (List.map (fun x => x.2.size) (run c (fuel c) (init c))) = (gather c).map (·.size) := by
+        simp [gather, trace, List.map_map, Function.comp_def]
+      rw [this, h1]; rfl
+    by_cases hk : d ∈ keys (final c (fuel c) (init c)).counter
+    · obtain ⟨e, he, rfl⟩ := List.mem_map.mp hk
+      have := hi.bound hne e he
+      rw [← hi.cnt e he]
+      show e.2 ≤ c.threshold
+      omega
+    · rcases hi.absent d hk with h2 | h2
+      · rw [hrep] at h2; exact absurd h2 hd
+      · show ov c d (final c (fuel c) (init c)).remaining ≤ c.threshold
+        omega
+  · show ov c d (final c (fuel c) (init c)).remaining ≤ c.threshold
+    omega
+  · have := h1 d hd
+    show ov c d (final c (fuel c) (init c)).remaining ≤ c.threshold
+    omega
+
+example : Sketches exCfg ∧ exCfg.orig.length < 2 ^ 64 := ⟨exCfg_sketches, by decide⟩
+
+/-! ## T-inv -/
+
+/-- T-inv: at the start of every round, `counter[d] = |D_d ∩ remaining|` for every `d` in the counter -/
+theorem counter_invariant {c : Cfg} (hc : Sketches c) {p : St × Row} (hp : p ∈ trace c) :
+    ∀ e ∈ p.1.counter, e.2 = (isectL (dsOf c.dsets e.1) (p.1.remaining.map (·.1))).length :=
+  (run_inv hc.wf _ (inv_init hc.wf) p hp).1.cnt
+
+/-- T-inv: … and in the state the loop stops in -/
+theorem counter_invariant_final {c : Cfg} (hc : Sketches c) :
+    ∀ e ∈ (stopState c).counter,
+      e.2 = (isectL (dsOf c.dsets e.1) ((stopState c).remaining.map (·.1))).length :=
+  (final_inv hc.wf _ (inv_init hc.wf)).cnt
+
+/-- T-inv: … and in every state reachable by rounds from a state satisfying the invariant (one round) -/
+theorem counter_invariant_step {c : Cfg} (hc : Sketches c) {s s' : St} {row : Row} (hi : Inv c s)
+    (h : step c s = some (row, s')) : Inv c s' := inv_step hc.wf hi h
+
+example : Inv exCfg (init exCfg) := inv_init exCfg_sketches.wf
+
+/-- the state of round `k`: the reported datasets are those of the rows before it, and the remaining
+    query is the original query minus their hashes -/
+theorem round_state {c : Cfg} (hc : Sketches c) {pre post : List (St × Row)} {p : St × Row}
+    (ht : trace c = pre ++ p :: post) :
+    p.1.reported = pre.map (·.2.d) ∧ p.1.remaining = minus c (pre.map (·.2.d)) := by
+  obtain ⟨_, hi, hrep⟩ := run_split hc.wf ht (inv_init hc.wf)
+  have : p.1.reported = pre.map (·.2.d) := by rw [hrep]; simp [init]
+  exact ⟨this, by rw [hi.rem, this]⟩
+
+/-! ## T-greedy -/
+
+/-- T-greedy: the dataset reported in a round exists, was not reported before, and maximises
+    `|D ∩ remaining|` among the unreported datasets, ties going to the lowest id -/
+theorem greedy_choice {c : Cfg} (hc : Sketches c) {p : St × Row} (hp : p ∈ trace c) :
+    p.2.d < c.dsets.length ∧ p.2.d ∉ p.1.reported ∧
+    ∀ d', d' ∉ p.1.reported →
+      ov c d' p.1.remaining < ov c p.2.d p.1.remaining ∨
+      (ov c d' p.1.remaining = ov c p.2.d p.1.remaining ∧ p.2.d ≤ d') := by
+  obtain ⟨hi, s', hstep⟩ := run_inv hc.wf _ (inv_init hc.wf) p hp
+  exact step_greedy hi hstep
+
+/-! ## T-unique -/
+
+/-- T-unique: the reported intersection is `match ∩ remaining`, its size is the reported unique overlap
+    (`unique_intersect_bp = scaled · |isect|`), and the counter value used as the numerator of `f_match`
+    equals it -/
+theorem unique_eq_counter {c : Cfg} (hc : Sketches c) {p : St × Row} (hp : p ∈ trace c) :
+    p.2.isect = isectL (dsOf c.dsets p.2.d) (p.1.remaining.map (·.1)) ∧
+    p.2.uniqueBp = c.scaled * p.2.isect.length ∧
+    p.2.fMatch = (p.2.isect.length, (dsOf c.dsets p.2.d).length) ∧
+    p.2.size = p.2.isect.length := by
+  obtain ⟨hi, s', hstep⟩ := run_inv hc.wf _ (inv_init hc.wf) p hp
+  obtain ⟨_, _, h3, h4⟩ := step_choice hi hstep
+  obtain ⟨d, size, _, _, _, _, _, hrow, _⟩ := step_some hstep
+  refine ⟨h3, by rw [hrow]; rfl, ?_, h4.symm⟩
+  rw [h4]
+  rw [hrow]
+  rfl
 
 end Sourmash.C08
